@@ -1,7 +1,69 @@
 """C03 - relative branches and jumps reach exactly the target that was named."""
-from . import encgen, encrun
+import random
+
+from . import encgen, encrun, progcheck as P, progrun
 
 PROP = "C03"
+
+OPS = {"rjmp": (0xC000, 12, None), "rcall": (0xD000, 12, None), "breq": (0xF001, 7, None), "brne": (0xF401, 7, None), "brlo": (0xF000, 7, None),
+       "brbs 3,": (0xF003, 7, None), "brbc 6,": (0xF406, 7, None)}
+FILL = [("  nop", 1), ("  .dw 1", 1), ("  .dw 1, 2, 3", 3), ("  .db 1", 1), ("  .db 1, 2, 3", 2), ('  .db "abcd"', 2), ("  jmp 0", 2), ("  lds r16, 0x60", 2),
+        ("  .dd 7", 2), ("  .dq 9", 4), ("  ldi r16, 1", 1)]
+
+
+def word_of(op, d):
+    base, bits, _ = OPS[op]
+    if not -(1 << (bits - 1)) <= d < (1 << (bits - 1)):
+        return None
+    return base | ((d & 0xFFF) if bits == 12 else ((d & 0x7F) << 3))
+
+
+def filler(rng, words):
+    """lines that occupy exactly [words] words of flash, of mixed kinds"""
+    out = []
+    while words > 0:
+        text, w = rng.choice(FILL)
+        if w <= words:
+            out.append(text)
+            words -= w
+    return out
+
+
+def program_cases(rng, n):
+    """(source, index of the branch word, expected word or None=must fail)"""
+    cases = []
+    for _ in range(n):
+        op = rng.choice(list(OPS))
+        bits = OPS[op][1]
+        lim = 1 << (bits - 1)
+        d = rng.choice([lim - 1, lim, -lim, -lim - 1, 0, -1, 1, rng.randrange(-lim - 3, lim + 3)])
+        pre = filler(rng, rng.randrange(0, 6))
+        npre = sum(dict(FILL)[t] for t in pre)
+        form = rng.choice(["label", "pc", "pc-after-data", "number"])
+        if form == "pc-after-data":
+            pre.append(rng.choice(["  .dw 5", "  .db 1, 2", "  .dd 1"]))
+            npre += 1 if "dd" not in pre[-1] else 2
+        if d >= 0:
+            body = filler(rng, d)
+            if form == "label":
+                lines = pre + ["  %s tgt" % op] + body + ["tgt: nop"]
+            elif form == "number":
+                lines = pre + ["  %s %d" % (op, npre + 1 + d)] + body + ["  nop"]
+            else:
+                lines = pre + ["  %s %s+%d" % (op, rng.choice(["pc", "PC"]), d + 1)] + body + ["  nop"]
+            at = npre
+        else:
+            back = -d - 1          # words between the target and the branch
+            body = filler(rng, back)
+            if form == "label":
+                lines = pre + ["tgt:"] + body + ["  %s tgt" % op]
+            elif form == "number":
+                lines = pre + body + ["  %s %d" % (op, npre)]
+            else:
+                lines = pre + body + ["  %s pc-%d" % (op, back)]
+            at = npre + back
+        cases.append(("\n".join(lines) + "\n", at, word_of(op, d)))
+    return cases
 
 
 def run(res):
@@ -17,8 +79,35 @@ def run(res):
                 "this field-level theorem; the instruction-level interface is given pc and target directly"])
 
 
-match_known = encrun.match_known
+    # program level: the same instructions with the target given by a label, by a pc-relative expression (also right after
+    # data) and by a number, among one- and two-word instructions and data of every width
+    from . import common as C
+    vh = C.build_harness("debug")
+    exe = C.build_model()
+    rng = random.Random(res.seed)
+    cases = program_cases(rng, 1500 if res.tier == "quick" else 60000)
+    obs = P.correspond(res, vh, exe, [c[0] for c in cases], "branch programs")
+    for text, at, want in cases:
+        a = progrun.parse_obs(obs[text][0])
+        if want is None:
+            if a["kind"] != "ERR":
+                P.fail(res, "builder::build_str", text, "a failed build: the target is out of reach", obs[text][0][:80], "far-accepted")
+        elif a["kind"] != "OK":
+            P.fail(res, "builder::build_str", text, "word %04x at word %d" % (want, at), obs[text][0][:80], "reach-rejected")
+        else:
+            got = a["code"][4 * at:4 * at + 4]
+            exp = "%02x%02x" % (want & 255, want >> 8)
+            if got != exp:
+                P.fail(res, "builder::build_str", text, "word %s at word %d" % (exp, at), "word %s" % got, "wrong-target")
+
+
+def match_known(f, entry):
+    return entry.get("class") is not None and f.get("cls") == entry.get("class")
 
 
 def replay(path):
+    import json
+    i = json.load(open(path)).get("input") or {}
+    if "source" in i:
+        return P.replay_text(PROP, path, lambda vh, exe, inp: None)
     return encrun.replay(PROP, path)
